@@ -133,6 +133,13 @@ impl IdMap {
         self.i2e.clone()
     }
 
+    /// Whether the node table carries a (compacted) tombstone for `internal_id`.
+    pub fn is_tombstoned(&self, internal_id: InternalNodeId) -> bool {
+        self.i2e
+            .get(internal_id as usize)
+            .is_some_and(|r| r.flags & I2E_FLAG_TOMBSTONED != 0)
+    }
+
     /// Create node with single label (backward compat).
     pub fn apply_create_node(
         &mut self,
